@@ -996,3 +996,30 @@ package stack
 //@   ensures [rootMapsAllocated C18] s.RemoteGOPATHs != nil && s.LocalGomods != nil && fresh(s.RemoteGOPATHs) && fresh(s.LocalGomods)
 //@   loop 0: invariant -1 <= rangeindex && s.RemoteGOPATHs != nil && s.LocalGomods != nil && fresh(s.RemoteGOPATHs) && fresh(s.LocalGomods) && gmc != nil && fresh(gmc)
 //@   loop 1: invariant -1 <= rangeindex#2 && s.RemoteGOPATHs != nil && s.LocalGomods != nil && fresh(s.RemoteGOPATHs) && fresh(s.LocalGomods) && gmc != nil && fresh(gmc)
+
+// ---- stack.go / context.go: applying updateLocations to every frame (C03, C18) ----
+// Located: what Call.updateLocations leaves behind for a frame, as a one-state
+// relation between the frame and the roots (the old values are not mentioned).
+//@ pred Located(c *Call, goroot string, localgoroot string, localgomods map[string]string, gopaths map[string]string) = (c.RemoteSrcPath != "" && goroot != "" && UnderSrc(c.RemoteSrcPath, goroot)) ? (c.RelSrcPath == c.RemoteSrcPath[len(goroot)+5:] && c.LocalSrcPath == localgoroot + "/" + "src" + "/" + c.RelSrcPath && c.Location != LocationUnknown) : ((c.RemoteSrcPath != "" && (exists k string :: dom(gopaths, k) && UnderGopath(c.RemoteSrcPath, k))) ? (exists k string :: GopathRoot(c.RemoteSrcPath, gopaths, k) && c.Location != LocationUnknown && (UnderSrc(c.RemoteSrcPath, k) ? (c.RelSrcPath == c.RemoteSrcPath[len(k)+5:] && c.LocalSrcPath == gopaths[k] + "/" + "src" + "/" + c.RelSrcPath) : (c.RelSrcPath == c.RemoteSrcPath[len(k)+9:] && c.LocalSrcPath == gopaths[k] + "/" + "pkg/mod" + "/" + c.RelSrcPath))) : ((c.RemoteSrcPath != "" && (exists k string :: dom(localgomods, k) && UnderDir(c.RemoteSrcPath, k))) ==> (exists k string :: ModRoot(c.RemoteSrcPath, localgomods, k) && c.RelSrcPath == c.RemoteSrcPath[len(k)+1:] && c.LocalSrcPath == c.RemoteSrcPath && c.Location != LocationUnknown)))
+
+//@ func (*Stack).updateLocations
+//@   requires s != nil
+//@   modifies Call.RelSrcPath, Call.LocalSrcPath, Call.ImportPath, Call.Location in s.Calls
+//@   ensures [everyFrameLocated C18] forall j :: 0 <= j && j < len(s.Calls) ==> Located(&s.Calls[j], goroot, localgoroot, localgomods, gopaths)
+//@   loop 0: invariant -1 <= rangeindex
+//@   loop 0: invariant forall j :: 0 <= j && j <= rangeindex ==> Located(&s.Calls[j], goroot, localgoroot, localgomods, gopaths)
+//@   loop 0: decreases len(s.Calls) - rangeindex
+
+//@ func (*Signature).updateLocations
+//@   requires s != nil
+//@   modifies Call.RelSrcPath, Call.LocalSrcPath, Call.ImportPath, Call.Location in s.CreatedBy.Calls; Call.RelSrcPath, Call.LocalSrcPath, Call.ImportPath, Call.Location in s.Stack.Calls
+//@   ensures [everyFrameOfTheSignatureLocated C18] forall j :: 0 <= j && j < len(s.Stack.Calls) ==> Located(&s.Stack.Calls[j], goroot, localgoroot, localgomods, gopaths)
+
+//@ func (*Snapshot).guessPaths
+//@   requires s != nil && forall g :: 0 <= g && g < len(s.Goroutines) ==> s.Goroutines[g] != nil
+//@   requires [framesSeparate] forall g1, g2 :: 0 <= g1 && g1 < len(s.Goroutines) && 0 <= g2 && g2 < len(s.Goroutines) && g1 != g2 ==> (len(s.Goroutines[g1].Stack.Calls) == 0 || len(s.Goroutines[g2].Stack.Calls) == 0 || arr(s.Goroutines[g1].Stack.Calls) != arr(s.Goroutines[g2].Stack.Calls)) && (len(s.Goroutines[g1].Stack.Calls) == 0 || len(s.Goroutines[g2].CreatedBy.Calls) == 0 || arr(s.Goroutines[g1].Stack.Calls) != arr(s.Goroutines[g2].CreatedBy.Calls))
+//@   modifies Snapshot.RemoteGOROOT, Snapshot.RemoteGOPATHs, Snapshot.LocalGomods at s; Call.RelSrcPath, Call.LocalSrcPath, Call.ImportPath, Call.Location
+//@   ensures [everyFrameOfTheSnapshotLocated C18] forall g, j :: 0 <= g && g < len(s.Goroutines) && 0 <= j && j < len(s.Goroutines[g].Stack.Calls) ==> Located(&s.Goroutines[g].Stack.Calls[j], s.RemoteGOROOT, s.LocalGOROOT, s.LocalGomods, s.RemoteGOPATHs)
+//@   loop 0: invariant -1 <= rangeindex
+//@   loop 0: invariant forall g, j :: 0 <= g && g <= rangeindex && 0 <= j && j < len(s.Goroutines[g].Stack.Calls) ==> Located(&s.Goroutines[g].Stack.Calls[j], s.RemoteGOROOT, s.LocalGOROOT, s.LocalGomods, s.RemoteGOPATHs)
+//@   loop 0: decreases len(s.Goroutines) - rangeindex
